@@ -93,7 +93,16 @@ class Decoder:
     # ---- decoding
     def decode(self, T, off, part="root"):
         k = self.kind(T)
-        v, size = getattr(self, "dec_" + k)(T, off)
+        self.depth += 1
+        try:
+            if self.depth > 40:
+                raise LayoutError(f"{part} at {off}: nesting deeper than any type of the grammar (corrupt offsets)")
+            v, size = getattr(self, "dec_" + k)(T, off)
+        except (ValueError, MemoryError, OverflowError, struct.error, UnicodeDecodeError, RecursionError) as e:
+            # garbage in the image (e.g. an absurd dimension): the bytes do not follow the layout
+            raise LayoutError(f"{part} at {off}: {type(e).__name__}: {e}")
+        finally:
+            self.depth -= 1
         self.parts.append((part, off, off + size))
         return v, size
 
@@ -219,6 +228,8 @@ class Decoder:
         n = 1
         for s in shape:
             n *= s
+        if cur + n * w > len(self.mem) - off or n > len(self.mem):
+            raise LayoutError(f"array at {off}: shape {shape} does not fit in the buffer image")
         D = cur
         val = np.empty(shape, dtype=object)
         end = D + n * w
